@@ -21,6 +21,7 @@ def r6(ctx):
 
 
 RULES = {
+    "C08.RG": lambda ctx: __import__("rules.foundations", fromlist=["x"]).no_global_state(ctx, "C08.RG"),
     "C08.R9": lambda ctx: bldrules.builder_new(ctx, "C08.R9"),
     "C08.R3c": lambda ctx: __import__("rules.bldrules", fromlist=["x"]).contents_resize(ctx, "C08.R3c"),
     "C08.R8": lambda ctx: __import__("rules.typesrules", fromlist=["x"]).key_agreement(ctx, "C08.R8"),
